@@ -35,7 +35,14 @@ var tokenBodies = []string{
 var jwksBodies = []string{`null`, `{}`, `[]`, `{"keys":null}`, `{"keys":[null]}`, `{"keys":[{"kty":"EC"}]}`, `{"keys":[{"kty":"RSA","n":"!!","e":"AQAB"}]}`,
 	`{"keys":[{"kty":"EC","crv":"P-256","x":"AA","y":"AA"}]}`, `{"keys":{}}`, `{"keys":[1,"a",[]]}`, `not json`, ``, `{"keys":[{"kty":"oct","k":"AAAA"}]}`}
 
-var discBodies = []string{`null`, `{}`, `[]`, `{"authorization_endpoint":5}`, `{"authorization_endpoint":null,"token_endpoint":null,"jwks_uri":null}`, `not json`, ``,
+var discBodies = []string{
+	`{"authorization_endpoint":" http://idp-a.test/authorize","token_endpoint":"http://idp-a.test/token","jwks_uri":"http://idp-a.test/jwks"}`,
+	`{"authorization_endpoint":"http://idp-a.test/authorize\n","token_endpoint":"http://idp-a.test/token","jwks_uri":"http://idp-a.test/jwks"}`,
+	`{"authorization_endpoint":"http://[::1/authorize","token_endpoint":"http://idp-a.test/token","jwks_uri":"http://idp-a.test/jwks"}`,
+	`{"authorization_endpoint":"http://idp-a.test:{port}/authorize","token_endpoint":"http://idp-a.test:port/token","jwks_uri":"http://idp-a.test/jwks"}`,
+	`{"authorization_endpoint":"http://idp-a.test/%zz","token_endpoint":"%zz","jwks_uri":"http://idp-a.test/%zz"}`,
+	`{"authorization_endpoint":"http://idp-a.test/authorize","token_endpoint":"http://idp-a.test/token","jwks_uri":"http://idp-a.test/jwks","end_session_endpoint":"http://[::1/x"}`,
+	`null`, `{}`, `[]`, `{"authorization_endpoint":5}`, `{"authorization_endpoint":null,"token_endpoint":null,"jwks_uri":null}`, `not json`, ``,
 	`{"authorization_endpoint":"","token_endpoint":"%%%","jwks_uri":"::::"}`, `{"authorization_endpoint":["a"]}`, `"x"`, `{"end_session_endpoint":{}}`}
 
 var reqShapes = []string{"nil-request-msg", "nil-attributes", "nil-request", "nil-http", "empty-http", "nil-headers", "no-path", "path-no-slash", "path-only-query", "path-only-fragment",
@@ -64,6 +71,17 @@ func genC15(r *Rng, tier string, idx int) *Plan {
 	id := 0
 	nid := func() int { id++; return id }
 	t := genTarget(r)
+	if idx%8 == 7 {
+		// concurrency: a logout / a second request of the same browser races the login callback or a refresh
+		// (a session may vanish between two store calls of one check); slow provider vs. a one-second idle timeout
+		p = genC09(r, tier, []int{1, 2}[r.Intn(2)])
+		p.Mode = "concurrent-session-loss"
+		if r.Bool() {
+			p.Spec.Filters[0].IdleTimeout = 1
+			p.Spec.IdPs[0].Knobs.LatencyUS = 2500000
+		}
+		return p
+	}
 	switch idx % 6 {
 	case 0: // hostile client
 		p.Mode = "hostile-client"
@@ -266,6 +284,9 @@ func runC15(p *Plan) *Result {
 		for i := range p.Ops {
 			c15Exec(a, &p.Ops[i])
 		}
+		if p.Mode == "concurrent-session-loss" {
+			w.probe("concurrent-session-loss-runs")
+		}
 		w.SimSecs = w.result().SimSecs
 	})
 	if infra != "" {
@@ -279,7 +300,7 @@ func runC15(p *Plan) *Result {
 			reach += v
 		}
 	}
-	res.Nontrivial = reach > 0 || w.Probes["raw-requests"] > 0
+	res.Nontrivial = reach > 0 || w.Probes["raw-requests"] > 0 || w.Probes["concurrent-session-loss-runs"] > 0
 	res.Summary = fmt.Sprintf("mode=%s %s", p.Mode, describeSpec(p.Spec))
 	return res
 }
